@@ -49,9 +49,9 @@ def gen_mux(rnd, aw, dw, tag):
     al = rnd.choice([0, 0, 0, 1])
     ops = []
     n = rnd.choice([0, 1, 1, 2, 2, 3, 4])
-    many = aw >= 4 and rnd.random() < 0.2       # 7-15 small readable registers: wide fan-ins into one shadow chunk
+    many = aw >= 4 and rnd.random() < 0.5       # 7-15 small readable registers: wide fan-ins into one shadow chunk
     if many:
-        n = rnd.randint(7, min(15, 1 << aw))
+        n = min(rnd.choice([7, 8, 9, 11, 12, 13, 14, 15]), 1 << aw)
     for i in range(n):
         w = rnd.choice([rnd.randint(1, 2 * dw + 3), dw, dw + 1, 1, 2 * dw, 0 if rnd.random() < 0.3 else 3,
                         rnd.randint(2 * dw + 1, 4 * dw)])
@@ -69,7 +69,9 @@ def gen_mux(rnd, aw, dw, tag):
             addr = (rnd.randrange(1 << aw) >> al) << al
         alignment = rnd.choice([None, None, None, 0, 1, ceil_log2(size)])
         nm = f"{tag}r{i}" if rnd.random() < 0.7 else [f"{tag}r{i}", i]
-        if rnd.random() < 0.2:
+        if many:
+            alignment = None
+        elif rnd.random() < 0.2:
             ops.append(["align", rnd.randint(0, aw)])
         ops.append(["add", w, acc, nm, size, addr, alignment])
     ov = rnd.choice([None, None, 0, 1, 2])
